@@ -3,6 +3,7 @@
    [h] = the 64-bit string hash (seahash), [uw] = regex `\w` on code points >= 128: arbitrary
    functions here; injectivity of [h] on the strings of the case is a stated hypothesis. *)
 From Adb Require Import Base BaseProofs C17_Model C17_Proofs C16_Model C16_Proofs.
+From Adb Require Generated.
 
 (* L0 vocabulary: the label-aligned suffixes of s are s and whatever follows one of its dots *)
 Theorem C16_label_suffixes_In : forall s x,
@@ -83,9 +84,9 @@ Print Assumptions C16_resources_algebra.
    generic selectors without a class/id key that are not unhidden for the host; exceptions = every
    selector unhidden for the host; procedural/action filters and scriptlets likewise, a blanket
    script exception removing every scriptlet.
-   Not covered here: the permission mask attached to an injected scriptlet (union of the masks of
-   identical injections, C18), the scriptlet text assembly (C18), the value of generichide (network
-   matching of $generichide exceptions, an input here) and the URL -> hostname step (C12). *)
+   The permission mask attached to an injected scriptlet is C16_script_mask_spec below.
+   Not covered here: the scriptlet text assembly (C18), the value of generichide (network matching
+   of $generichide exceptions, an input here) and the URL -> hostname step (C12). *)
 Theorem C16_cosmetic_spec : forall h uw rules host dom gh,
   inj_on h (lookup_strings host dom ++ all_locations rules) ->
   let R := hostname_cosmetic_resources h (build_cache h uw rules) host dom gh in
@@ -100,3 +101,22 @@ Theorem C16_cosmetic_spec : forall h uw rules host dom gh,
   generichide R = gh.
 Proof. exact cosmetic_spec. Qed.
 Print Assumptions C16_cosmetic_spec.
+
+(* the permission mask the result holds for an injected scriptlet (HashMap get = sget) is the
+   union, bit by bit, of the masks of the identical injections of rules covering the host *)
+Theorem C16_script_mask_spec : forall h uw rules host dom gh s p,
+  inj_on h (lookup_strings host dom ++ all_locations rules) ->
+  sget s (script_injections (hostname_cosmetic_resources h (build_cache h uw rules) host dom gh)) = Some p ->
+  forall i, N.testbit p i = true <->
+            exists q, applies rules host dom TInject s q /\ N.testbit q i = true.
+Proof. exact script_mask_spec. Qed.
+Print Assumptions C16_script_mask_spec.
+
+(* translator tie: the arms of SpecificFilterType::negated and HostnameRuleDb::store and the order
+   entities-then-hostnames in the source are the ones C16_Model.v transcribes *)
+Theorem C16_tables_as_modelled :
+  Generated.c16_negated_table = map (fun t => (tag_name t, tag_name (neg_tag t))) all_tags /\
+  Generated.c16_store_table = map (fun t => (tag_name t, bin_name t)) all_tags /\
+  Generated.c16_hash_chain = ["request_entities"%string; "request_hostnames"%string].
+Proof. exact tables_as_modelled. Qed.
+Print Assumptions C16_tables_as_modelled.
